@@ -1,14 +1,41 @@
-"""C04 — broker-family check (see checks/brokerfam.py and DESIGN.md §4 C04)."""
+"""C04 — broker-family check (see checks/brokerfam.py and DESIGN.md §4 C04), plus the client side of event
+delivery: aldrin/src/client/{broker_subscriptions,proxies}.rs are anchors of C04 (the owner-side filter that
+decides whether an emit is sent at all, and the per-proxy fan-out inside a client), exercised by the
+scheduler harness' per-proxy event oracle."""
+import json
+
 from checks import brokerfam
+from vlib import schedx
 
 PROP = "C04"
 PINS = {}
 MIXES = ["events","all","events","registry"]
+EVENT_TAGS = {"event-lost", "event-unsubscribed", "event-order", "event-foreign", "event-stream-end"}
+SCHED = {"quick": (40, 4, 60), "thorough": (600, 16, 60)}     # programs per shard, shards, ops per client
+
+
+def select(m):
+    if m["tag"] in EVENT_TAGS:
+        return "client-side-" + m["tag"] + ": " + m["detail"][:400]
+    return None
+
+
+def extra(o, tier, seed):
+    per, shards, ops = SCHED[tier]
+    schedx.run(o, PROP, select, "client_side_event_oracle", per, shards, ops, seed, gen_opts="--no-versions")
+    o.assumptions.append("client side of event delivery (owner-side filter broker_subscriptions.rs, per-proxy fan-out "
+                         "proxies.rs): NOT modelled in Coq; exercised by harness sched with its event oracle (per proxy and "
+                         "event id: subscription state kept from the program; every emit under a confirmed subscription is "
+                         "owed exactly once, in order); failures of other kinds in those programs belong to C06")
 
 
 def run(tier, seed):
-    return brokerfam.run_check(PROP, "Props/C04.v", PINS, MIXES, tier, seed)
+    return brokerfam.run_check(PROP, "Props/C04.v", PINS, MIXES, tier, seed, extra=extra)
 
 
 def replay(path):
+    r = json.load(open(path))
+    if r.get("input", {}).get("case"):
+        from checks import c06
+        return c06.replay(path)
     return brokerfam.replay(PROP, path)
